@@ -674,6 +674,7 @@ func (g Gateway) GetByIndexStream(in *hydrapb.GetByIndexStreamRequest, stream hy
 		// Bucket-routed: pull candidates from the auto-built index,
 		// then apply time-range, sort, paging, residual predicate.
 		candidates := collectBucketCandidates(swampInterface, plan.Hints)
+		candidates = onlyIndexed(candidates, beaconType)
 		candidates = applyTimeRange(candidates, beaconType, fromTime, toTime)
 		sortCandidates(candidates, beaconType, order)
 		treasures = candidates
@@ -816,6 +817,7 @@ func (g Gateway) GetByIndexStreamFromMany(in *hydrapb.GetByIndexStreamFromManyRe
 			// paged requests take the beacon walk, as in GetByIndexStream
 			if plan.Mode != PlanModeBypass && bucketExecPreconditions(beaconType) && query.GetFrom() == 0 && query.GetLimit() == 0 {
 				candidates := collectBucketCandidates(swampInterface, plan.Hints)
+				candidates = onlyIndexed(candidates, beaconType)
 				candidates = applyTimeRange(candidates, beaconType, fromTime, toTime)
 				sortCandidates(candidates, beaconType, order)
 				treasures = candidates
